@@ -200,9 +200,11 @@ def run_case(case, ctx):
             obs.count("reuse_requested_after_structural_edit_not_judged")
             call(net, opts, sol)
             continue
-        if cache_alive and not keeps:
-            obs.count("calls_without_reuse_after_a_caching_call" + ("_and_structural_edit" if cache_stale else ""))
-        cache_alive, cache_stale = keeps, False
+        hyd_call = not (opts["mode"] == "heat" and sol is not None and sol_edits == list(edits_so_far) and sol_mode != "bidirectional")
+        if hyd_call:     # a heat-only call does not build or drop the hydraulic cache
+            if cache_alive and not keeps:
+                obs.count("calls_without_reuse_after_a_caching_call" + ("_and_structural_edit" if cache_stale else ""))
+            cache_alive, cache_stale = keeps, False
         # heat-only runs are issued when the object holds the hydraulic-stage solution of the present description
         # (a bidirectional solution is a different one for temperature-dependent flows: QE_DT / QE_TR consumers)
         if opts["mode"] == "heat" and (sol is None or sol_edits != list(edits_so_far) or sol_mode == "bidirectional"):
